@@ -33,6 +33,8 @@ INT_PARAM_MODEL = ("parameters(c=1/4, d=2/3, e=1/2 + 1, f=10/4, g=3, h=-1/8)\nst
 def tasks(tier, seed):
     P = families.pack(INT_EXPRS, "CINT", per=4)
     P.append({"family": "CINT", "id": text_id(INT_PARAM_MODEL), "text": INT_PARAM_MODEL, "meta": {}})
+    from . import c12
+    P += [{"family": "UNUSED", "id": text_id(t), "text": t, "meta": {}} for t in c12.UNUSED]
     V = families.value_programs(tier, seed)
     if tier == "quick":
         V = families.select(V, 110, seed)
@@ -66,6 +68,15 @@ def work(task):
             checks.check_grl(prog, view, m, 1e-8, cut=cut)
     finally:
         view.close()
+    if task["family"] in ("CINT", "UNUSED", "LAYOUT", "DAG"):
+        # the same functions generated with remove_unused=True (monitor_values keeps every monitored quantity)
+        vr = checks.make_view(prog, ode, "c", label="c|get_code|remove_unused", schemes=["explicit_euler"], remove_unused=True)
+        if vr is not None:
+            try:
+                checks.check_rhs_monitor(prog, vr, m, tag="|ru")
+                checks.check_euler(prog, vr, m, tag="|ru")
+            finally:
+                vr.close()
     prog.nontrivial = prog.stats.solver_s > 0
     return prog.result()
 
